@@ -210,10 +210,11 @@ func execFuzzy(ops []string, mon *Mon) []string {
 }
 
 // c07unicode: the two Unicode facts C07 relies on, checked for every code point.
-//  (1) the SimpleFold orbit of a non-zero rune does not contain 0 and its least element is non-zero
-//      (the model's table condition FoldOK; the matcher's rune 0 is "end of text");
-//  (2) unicode.ToLower(r) lies in r's SimpleFold orbit for every r except the listed ones
-//      (so matching the lower-cased query under simple folding is matching the query ignoring case).
+//
+//	(1) the SimpleFold orbit of a non-zero rune does not contain 0 and its least element is non-zero
+//	    (the model's table condition FoldOK; the matcher's rune 0 is "end of text");
+//	(2) unicode.ToLower(r) lies in r's SimpleFold orbit for every r except the listed ones
+//	    (so matching the lower-cased query under simple folding is matching the query ignoring case).
 func toolC07Unicode(args []string) int {
 	type res struct {
 		Checked       int   `json:"checked"`
